@@ -7,7 +7,7 @@
    by the mutation stream of harness/props/c11.py. *)
 From TL Require Import Lib.Base Lib.GenTypes Model.ContainTypes Gen.ContainGen Model.Contain
      Proofs.ContainMain Proofs.ContainDetect Proofs.ContainStaged Gen.CensusGen Proofs.ContainCensus Model.ContainWalk Proofs.ContainWalk
-     Gen.ContainOutGen Model.ContainOut Model.ContainOutRun Proofs.ContainOut.
+     Gen.ContainOutGen Model.ContainOut Model.ContainOutRun Proofs.ContainOut Model.ContainState Proofs.ContainState.
 Require Import ZArith.
 
 (* ---- 1. sibling isolation ------------------------------------------------------------------------------------ *)
@@ -383,6 +383,51 @@ Example C11_output_nonvacuous :
   /\ map (fun f => out_exit f [ex_viol (PInt 4); ex_viol (PInt 0)]) ["text"; "json"; "sarif"] = [1; 1; 1]
   /\ judge_out "sarif" [ex_viol (PInt 0)] 1 [(PInt 1, PInt 1)] = [true; true; true; true; true].
 Proof. vm_compute. repeat split; reflexivity. Qed.
+
+(* ---- 12. analyzer state that survives from one file to the next (the hidden assumption of sections 1-3) ---------------- *)
+(* The containment model takes a rule as a FUNCTION of the file (r_res, r_contrib): what check() does for a file does not depend on the
+   files analysed before it.  Rule and analyzer objects live for the whole run, so this is a property of the code: every place outside
+   __init__ where the linters / analyzers assign or mutate an attribute of `self` or a module-level name is listed from the source
+   (Gen/CensusGen.v: state_sites); each is a reset, mutates an attribute that is reset at the start of an analysis, or is one of the
+   sites audited by hand in Proofs/ContainCensus.v (rule stores, per-file objects, caches keyed by path / pattern).  A new parse memo,
+   `last result` or module-level cache breaks this theorem on the next run.  The run-time counterpart is the carrier sweep of
+   harness/props/c11_carriers.py. *)
+Theorem C11_state_census : forall s, In s state_sites -> snd s = true \/ In (fst s) audited_state_sites.
+Proof. exact state_census. Qed.
+Print Assumptions C11_state_census.
+
+Theorem C11_audited_state_sites_exist :
+  forallb (fun a => existsb (fun s : string * bool => String.eqb a (fst s) && negb (snd s)) state_sites) audited_state_sites = true.
+Proof. exact audited_state_sites_exist. Qed.
+Print Assumptions C11_audited_state_sites_exist.
+
+(* the abstraction is exact for history-free analyzers: the store after the first loop is store_of of the functional rule, and files
+   that store nothing on their own can be removed from the run without changing it ... *)
+Theorem C11_history_free_is_functional : forall S (a : analyzer S) (r : rule), history_free a ->
+  (forall p, r_contrib r p = contrib_of a p) ->
+  forall files, collect a (a_init a) files = store_of r files.
+Proof. exact history_free_is_functional. Qed.
+Print Assumptions C11_history_free_is_functional.
+
+Theorem C11_history_free_isolation : forall S (a : analyzer S) (bad : string -> bool) files, history_free a ->
+  (forall p, bad p = true -> contrib_of a p = []) ->
+  collect a (a_init a) (filter (fun p => negb (bad p)) files) = collect a (a_init a) files.
+Proof. exact history_free_isolation. Qed.
+Print Assumptions C11_history_free_isolation.
+
+(* ... and it is NOT for an analyzer that remembers its last successful parse and replays it for a file that does not parse: the
+   damaged file stores nothing when analysed by a fresh object, yet a healthy file directly BEFORE it gets its evidence stored a second
+   time (the cross-file threshold is reached by one file); directly AFTER it nothing happens - which is why the carrier sweep places
+   the healthy file on both sides *)
+Theorem C11_stale_memo_breaks_isolation :
+  contrib_of (memo_analyzer ex_parse) "damaged.py" = []
+  /\ collect (memo_analyzer ex_parse) [] ["plain.py"; "carrier.py"; "damaged.py"]
+     = [("carrier.py", 7); ("carrier.py", 8); ("damaged.py", 7); ("damaged.py", 8)]
+  /\ collect (memo_analyzer ex_parse) [] ["plain.py"; "carrier.py"] = [("carrier.py", 7); ("carrier.py", 8)]
+  /\ collect (memo_analyzer ex_parse) [] ["plain.py"; "damaged.py"; "carrier.py"] = [("carrier.py", 7); ("carrier.py", 8)]
+  /\ ~ history_free (memo_analyzer ex_parse).
+Proof. exact memo_breaks_isolation. Qed.
+Print Assumptions C11_stale_memo_breaks_isolation.
 
 (* non-vacuity: a run with two rules and three files, one rule failing (RecursionError) on the middle file:
    all hypotheses hold, the failing pair costs its own cell only, H1 shows it *)
